@@ -27,10 +27,10 @@ CONFIGS = [(t, c, cap, f) for t in (1, 2, 3, 4, 5, 6) for c in (1, 2) for cap in
           [(3, 2, 2, 2), (3, 2, 1, 1), (2, 3, 2, 0), (4, 3, 1, 3)]
 
 
-def cfg(t, c, cap, f, variant='current', props=True):
-    return ('SPECIFICATION Spec\nCONSTANTS\n  NCons = %d\n  Cap = %d\n  Variant = "%s"\n  TreeId = %d\n  FailNode = %d\n'
-            'INVARIANTS AtMostOnce NoLoss MaxConcurrency WaitAfterLastCallback ErrorRecorded\n%s' % (
-                c, cap, variant, t, f, 'PROPERTY Terminates\n' if props else ''))
+def cfg(t, c, cap, f, variant='current', props=True, faillist=99):
+    return ('SPECIFICATION Spec\nCONSTANTS\n  NCons = %d\n  Cap = %d\n  Variant = "%s"\n  TreeId = %d\n  FailNode = %d\n  FailList = %d\n'
+            'INVARIANTS AtMostOnce NoLoss MaxConcurrency WaitAfterLastCallback ErrorRecorded ListingErrorRecorded\n%s' % (
+                c, cap, variant, t, f, faillist, 'PROPERTY Terminates\n' if props else ''))
 
 
 def run(ctx):
@@ -39,6 +39,9 @@ def run(ctx):
     for (t, c, cap, f) in configs:
         name = 'FsLoop tree=%d consumers=%d cap=%d fail=%d' % (t, c, cap, f)
         ctx.tlc_must_pass('loop', 'FsLoop', 'mc.cfg', workers=4, timeout=900, files={'mc.cfg': cfg(t, c, cap, f)}, name=name)
+    for (t, c, cap, fl) in ((3, 2, 2, 1), (4, 2, 1, 2), (4, 1, 2, 1)):
+        ctx.tlc_must_pass('loop', 'FsLoop', 'mc.cfg', workers=4, timeout=900, files={'mc.cfg': cfg(t, c, cap, 0, faillist=fl)},
+                          name='FsLoop tree=%d consumers=%d cap=%d failing listing of node %d' % (t, c, cap, fl))
     ctx.cov['exhaustive'] = True
     rp = ctx.tlc('loop', 'FsLoop', 'mc.cfg', workers=2, timeout=300, files={'mc.cfg': cfg(3, 2, 2, 0, 'prefix', False)},
                  name='prefix variant (must violate NoLoss)')
